@@ -116,7 +116,7 @@ class Run:
 
 def _make_logger(sink, side):
     from aioquic.quic.logger import QuicLogger, QuicLoggerTrace
-    keep = ("transport:packet_sent", "transport:packet_received", "recovery:packet_lost")
+    keep = ("transport:packet_sent", "transport:packet_received", "recovery:packet_lost", "transport:packet_dropped")
 
     class SeqTrace(QuicLoggerTrace):
         def log_event(self, *, category, event, data):
@@ -220,6 +220,16 @@ def run_scenario(sc, keep_pair=False):
     r.anomalies = list(pair.anomalies)
     r.pair = pair
     r.observer_packets = _index_observer(pair)
+    r.path_frames = _path_frames(pair)
+    # wire accounting of the server's budget towards the client's current address (RFC 9000 8.1: at most three times
+    # the bytes received from an address that is not validated yet)
+    wl = pair.network.wire_log
+    r.delivered_idx = set(i for _, i, _, _ in pair.network.delivered)
+    r.sent_index = {"client": [rec.index for rec in wl if rec.sender == "client"],
+                    "server": [rec.index for rec in wl if rec.sender == "server"]}
+    r.budget = {"received": sum(len(wl[i].data) for _, i, src, dst in pair.network.delivered
+                                if src == pair.client.addr and dst == pair.server.addr),
+                "sent": sum(len(rec.data) for rec in wl if rec.sender == "server" and rec.dst == pair.client.addr)}
     if not keep_pair:
         r.pair = None
     return r
@@ -266,6 +276,19 @@ def _make_done_predicate(pair, want):
     return done
 
 
+def _path_frames(pair):
+    """[(sender, 'PATH_CHALLENGE'|'PATH_RESPONSE', data)] seen on the wire."""
+    out = []
+    if pair.observer is None:
+        return out
+    for p in pair.observer.packets:
+        if p.decrypted and p.sender is not None:
+            for f in p.frames:
+                if f.name in ("PATH_CHALLENGE", "PATH_RESPONSE"):
+                    out.append((p.sender, f.name, bytes(f.fields.get("data", b"")), p.datagram_index))
+    return out
+
+
 def _index_observer(pair):
     """(sender, pn) -> list of STREAM / RESET_STREAM frames (1-RTT and 0-RTT packets) seen on the wire."""
     idx = {}
@@ -282,10 +305,45 @@ def _index_observer(pair):
 # ======================================================================================
 # (i) implementation oracle: the property sentence, directly over public behaviour
 # ======================================================================================
+def stall_cause(r, tx):
+    """Why did a transfer from `tx` not complete although the network became fair?  Classified from the wire and the
+    qlog only; None = unexplained."""
+    rx = "server" if tx == "client" else "client"
+    # (a) an endpoint keeps discarding everything it receives as undecryptable after a key update
+    if any(it.op == "key_update" for it in r.script):
+        for side in (tx, rx):
+            tail = [e[2] for e in r.G if e[0] == "q" and e[1] == side and e[2] in ("transport:packet_received", "transport:packet_dropped")
+                    and (e[2] != "transport:packet_dropped" or e[3].get("trigger") == "payload_decrypt_error")]
+            n = 0
+            while n < len(tail) and tail[-1 - n] == "transport:packet_dropped":
+                n += 1
+            if n >= 3:
+                return ("%s discarded its last %d incoming packets as undecryptable (key update: old read keys dropped before "
+                        "the peer switched)" % (side, n), {"defect": "key_update_old_keys_discarded"})
+    # (b) a PATH_CHALLENGE of the sender was never answered and never repeated: its new path stays amplification-limited
+    sent = [d for s_, n_, d, i_ in r.path_frames if s_ == tx and n_ == "PATH_CHALLENGE"]
+    answered = set(d for s_, n_, d, i_ in r.path_frames if s_ == rx and n_ == "PATH_RESPONSE" and i_ in r.delivered_idx)
+    last_idx = max([i_ for s_, n_, d, i_ in r.path_frames if s_ == tx and n_ == "PATH_CHALLENGE"] + [-1])
+    n_after = len([i for i in r.sent_index[tx] if i > last_idx])
+    if (sent and sent[-1] not in answered and tx == "server" and r.budget["sent"] + 40 > 3 * r.budget["received"]
+            and n_after < 6):
+        # nothing an endpoint may do: the path is unvalidated, the budget is spent, the peer is silent.  Any compliant
+        # server is stuck here (RFC 9000 has no peer-side timer after the handshake); not counted against aioquic.
+        return ("anti-amplification deadlock after the client's address change: server sent %d bytes to the new address, "
+                "received %d from it, its PATH_CHALLENGE is unanswered and the client has nothing to send"
+                % (r.budget["sent"], r.budget["received"]), {"defect": "inherent_anti_amplification_deadlock"})
+    if sent and sent[-1] not in answered:
+        return ("the last PATH_CHALLENGE of %s was never answered and never repeated although %s sent %d more datagrams "
+                "(path stays unvalidated, the anti-amplification limit throttles and finally blocks the sender)"
+                % (tx, tx, n_after), {"defect": "path_challenge_not_retransmitted"})
+    return None
+
+
 def oracle(r):
     """Returns a list of (what, signature) -- empty when the run satisfies C01."""
     from aioquic.quic import events as qe
     bad = []
+    r.inherent = []
     for x in r.api_exceptions:
         bad.append(("%s.%s raised %s during the %s phase: %s" % (x["endpoint"], x["call"], x["exception"], x["phase"], x["message"]),
                     {"defect": "api_exception", "exception": x["exception"], "call": x["call"]}))
@@ -360,8 +418,18 @@ def oracle(r):
             got = sum(len(d) for k, d, e in evs if k == "data")
             ended = any(e for k, d, e in evs if k == "data")
             was_reset = any(k == "reset" for k, d, e in evs)
+            incomplete = (not was_reset and not (t["fin"] and ended)) if t["reset"] is not None else \
+                (got < len(t["data"]) or (t["fin"] and not ended))
+            cause = stall_cause(r, tx) if incomplete else None
+            if cause and cause[1]["defect"].startswith("inherent_"):
+                r.inherent.append("%s stream %d: %s" % (tx, sid, cause[0]))
+                continue
+            if cause:
+                bad.append(("%s stream %d: %d of %d written bytes delivered after the fair phase (%.1f virtual s): %s"
+                            % (tx, sid, got, len(t["data"]), r.elapsed, cause[0]), cause[1]))
+                continue
             if t["reset"] is not None:
-                if not was_reset and not (t["fin"] and ended):
+                if incomplete:
                     bad.append(("%s stream %d: reset by the sender but neither StreamReset nor the complete stream "
                                 "reached the receiver after the fair phase" % (tx, sid), {"defect": "reset_not_delivered"}))
                 continue
@@ -672,6 +740,12 @@ FIXED_SCRIPTS = {
     # a stream that is reset after part of its data, next to one that completes
     "reset_partial": [_w("client", 0, 4000, False, 0.0, 10), _w("server", 1, 1000, True, 0.0, 11),
                       {"side": "client", "op": "reset", "args": {"stream": 0, "code": 7}, "t": 0.03}],
+    # the client is rebound, then downloads: the server's new path must get validated for the transfer to proceed
+    "rebind_download": [{"side": "client", "op": "rebind", "args": {}, "t": 0.0}, {"side": "client", "op": "ping", "args": {"uid": 2}, "t": 0.0},
+                        _w("server", 3, 30000, True, 0.05, 17)],
+    # the server updates its keys while it only has acknowledgements to send; the client keeps uploading
+    "key_update_upload": [_w("client", 0, 1000, False, 0.0, 18), {"side": "server", "op": "key_update", "args": {}, "t": 0.05},
+                          _w("client", 0, 1000, False, 0.1, 19), _w("client", 0, 1000, True, 0.6, 20)],
     # several small streams in one flight
     "many_small": [_w("client", 0, 10, True, 0.0, 12), _w("client", 4, 200, True, 0.0, 13), _w("client", 2, 1, True, 0.0, 14),
                    _w("server", 1, 300, True, 0.0, 15), _w("server", 3, 0, True, 0.01), _w("client", 8, 1200, True, 0.01, 16)],
@@ -738,6 +812,8 @@ class SimSuite:
                     st["distinct_nontrivial"] += 1
             bad = oracle(r)
             st["outcome_histogram"]["ok" if not bad else "violation"] += 1
+            if r.inherent:
+                st["inherent_deadlocks"] = st.get("inherent_deadlocks", 0) + 1
             if bad:
                 st["oracle_failures"] += 1
                 for what, sig in bad:
